@@ -335,13 +335,71 @@ func c12Keyset(c *Ctx) {
 			}
 			good = true
 		})
-		r.Check(good, "C12.keyset", key, p.FuncPos(ls.f), why, "result[i] set for every i of a complete range loop; len(result)=len(source)")
+		if !good {
+			// append form: result = append(result, x) on every iteration of a complete
+			// range loop, result starting empty — same order, every entry
+			allInstrs(ls.f, func(ins ssa.Instruction) {
+				call, ok := ins.(*ssa.Call)
+				if !ok || good {
+					return
+				}
+				b, isB := call.Call.Value.(*ssa.Builtin)
+				if !isB || b.Name() != "append" || !inCycle(call.Block()) {
+					return
+				}
+				// the accumulator: a phi of (empty slice, this append)
+				acc := call.Call.Args[0]
+				if u, isU := acc.(*ssa.UnOp); isU {
+					// accumulator kept in a struct field (result.Key = append(result.Key, …)): accept a field load
+					if _, _, isF := guard.FieldOf(u); !isF {
+						return
+					}
+				} else {
+					phi, isPhi := acc.(*ssa.Phi)
+					if !isPhi {
+						return
+					}
+					for _, e := range phi.Edges {
+						if e == ssa.Value(call) || guard.IsNilConst(e) {
+							continue
+						}
+						if mk, isMk := guard.Strip(e).(*ssa.MakeSlice); isMk {
+							if k, isK := guard.ConstInt(mk.Len); isK && k == 0 {
+								continue
+							}
+						}
+						return
+					}
+				}
+				// a complete range loop containing the append, whose every iteration reaches it
+				var rl *rangeLoop
+				allInstrs(ls.f, func(i2 ssa.Instruction) {
+					if sia, ok := i2.(*ssa.IndexAddr); ok {
+						if l := rangeLoopOf(sia); l != nil && l.Blocks[call.Block()] && (l.Complete || l.CompleteButErrors) {
+							rl = l
+						}
+					}
+				})
+				if rl == nil {
+					why = "the appending loop can be left early (other than by returning an error) or is not a range loop over the source"
+					return
+				}
+				for _, pred := range rl.Header.Preds {
+					if rl.Blocks[pred] && !(call.Block() == pred || call.Block().Dominates(pred)) {
+						why = "some entries are skipped (the append does not happen on every iteration)"
+						return
+					}
+				}
+				good = true
+			})
+		}
+		r.Check(good, "C12.keyset", key, p.FuncPos(ls.f), why, "result[i] set (or result appended to) on every iteration of a complete range loop over the source")
 	}
 	// keysetToEntries: RAW => ID requirement 0; primary by ID; ID preserved
 	if k2e != nil {
 		raw, _ := constOf(p, "proto/tink_go_proto", "OutputPrefixType_RAW")
 		okRaw := false
-		for _, site := range callsTo(k2e, core.ModPath+"/internal/protoserialization.NewKeySerialization") {
+		for _, site := range callsToDeep(k2e, core.ModPath+"/internal/protoserialization.NewKeySerialization") {
 			if phi, isPhi := guard.Strip(site.Common().Args[2]).(*ssa.Phi); isPhi && len(phi.Edges) == 2 {
 				z, id := false, false
 				for i, e := range phi.Edges {
@@ -360,19 +418,38 @@ func c12Keyset(c *Ctx) {
 		}
 		r.Check(okRaw, "C12.keyset", "C12.keyset/keysetToEntries/ID requirement", p.FuncPos(k2e), "the key's ID requirement is not (0 if RAW else the proto key ID)", "phi[0 under RAW, GetKeyId() otherwise]")
 		okEntry := false
-		for _, site := range callsTo(k2e, core.ModPath+"/keyset.newUnmonitoredEntry") {
+		for _, site := range callsToDeep(k2e, core.ModPath+"/keyset.newUnmonitoredEntry") {
 			args := site.Common().Args
 			idc, _ := guard.CallOf(args[2])
 			okID := idc != nil && strings.HasSuffix(guard.CalleeName(&idc.Call), "Keyset_Key).GetKeyId")
 			okPrim := false
 			if cmp, isCmp := guard.Strip(args[1]).(*ssa.BinOp); isCmp && cmp.Op == token.EQL {
-				a, _ := guard.CallOf(cmp.X)
-				b, _ := guard.CallOf(cmp.Y)
-				if a != nil && b != nil {
-					na, nb := guard.CalleeName(&a.Call), guard.CalleeName(&b.Call)
-					if (strings.HasSuffix(na, ").GetKeyId") && strings.HasSuffix(nb, ").GetPrimaryKeyId")) || (strings.HasSuffix(nb, ").GetKeyId") && strings.HasSuffix(na, ").GetPrimaryKeyId")) {
-						okPrim = true
+				// either operand may be a getter call or a direct field load, possibly handed
+				// into an extracted helper as a parameter
+				kind := func(v ssa.Value) string {
+					v = resolveParam(p, v)
+					if cc, _ := guard.CallOf(v); cc != nil {
+						n := guard.CalleeName(&cc.Call)
+						switch {
+						case strings.HasSuffix(n, ").GetKeyId"):
+							return "id"
+						case strings.HasSuffix(n, ").GetPrimaryKeyId"):
+							return "primary"
+						}
 					}
+					if _, fld, isF := guard.FieldOf(v); isF {
+						switch fld {
+						case "KeyId":
+							return "id"
+						case "PrimaryKeyId":
+							return "primary"
+						}
+					}
+					return ""
+				}
+				ka, kb := kind(cmp.X), kind(cmp.Y)
+				if (ka == "id" && kb == "primary") || (ka == "primary" && kb == "id") {
+					okPrim = true
 				}
 			}
 			stc, _ := guard.CallOf(args[3])
@@ -403,14 +480,50 @@ func c12Keyset(c *Ctx) {
 		ok := false
 		allInstrs(e2p, func(ins ssa.Instruction) {
 			if _, fld, val, isS := guard.StoreField(ins); isS && fld == "PrimaryKeyId" {
-				kc, _ := guard.CallOf(val)
-				if kc == nil || !isEntryMethod(&kc.Call, "KeyID") {
-					return
-				}
-				for _, fct := range guard.InstrFacts(ins) {
-					if call, v, isB := guard.BoolCallFact(fct); isB && v && isEntryMethod(&call.Call, "IsPrimary") && sameEntry(call.Call.Args[0], kc.Call.Args[0]) {
-						ok = true
+				// the stored value: entry.KeyID() taken under entry.IsPrimary(), directly or
+				// carried out of the loop in a local (phi of 0 / itself / such calls)
+				var leaves []ssa.Value
+				seenPhi := map[ssa.Value]bool{}
+				var flat func(v ssa.Value, d int)
+				flat = func(v ssa.Value, d int) {
+					v = guard.Strip(v)
+					if ph, isPhi := v.(*ssa.Phi); isPhi && d < 4 {
+						if seenPhi[ph] {
+							return
+						}
+						seenPhi[ph] = true
+						for _, e := range ph.Edges {
+							flat(e, d+1)
+						}
+						return
 					}
+					if k, isK := guard.ConstInt(v); isK && k == 0 {
+						return
+					}
+					leaves = append(leaves, v)
+				}
+				flat(val, 0)
+				all := len(leaves) > 0
+				for _, lf := range leaves {
+					kc, _ := guard.CallOf(lf)
+					if kc == nil || !isEntryMethod(&kc.Call, "KeyID") {
+						all = false
+						continue
+					}
+					under := false
+					for _, blk := range []*ssa.BasicBlock{kc.Block(), ins.Block()} {
+						for _, fct := range guard.BlockFacts(blk) {
+							if call, v, isB := guard.BoolCallFact(fct); isB && v && isEntryMethod(&call.Call, "IsPrimary") && sameEntry(call.Call.Args[0], kc.Call.Args[0]) {
+								under = true
+							}
+						}
+					}
+					if !under {
+						all = false
+					}
+				}
+				if all {
+					ok = true
 				}
 			}
 		})
